@@ -161,11 +161,9 @@ def classify(scn, iout):
     if any(o[0] != "ok" for o in outcomes):
         kinds = sorted({(o[0], o[1] if o[0] == "exc" else "") for o in outcomes if o[0] != "ok"})
         fid = None
-        if feat["dst_misaddressed"]:
+        if feat["dst_misaddressed"] and set(kinds) <= {("exc", "ValueError"), ("mismatch", "")}:
             fid = "C15-subgroup-dst-rank"
-        elif feat["bcast_root_shifted"] and not feat["dst_named"]:
-            fid = "C15-subgroup-bcast-root"
-        elif feat["bcast_root_shifted"]:
+        elif feat["bcast_root_shifted"] and set(kinds) <= {("exc", "TypeError"), ("exc", "ValueError")}:
             fid = "C15-subgroup-bcast-root"
         bad.append((fid, f"not every member returned: {kinds}"))
         return bad
@@ -299,8 +297,8 @@ def witness_stream(ctx):
 
 def run(ctx):
     su.quiet()
-    tie_stream(ctx, "send_tensors: trace+result tie (checking transport)", gen_send, ctx.n(600, 6000), "sync_send")
-    tie_stream(ctx, "sync_states: trace+result tie (checking transport)", gen_states, ctx.n(600, 6000), "sync_states")
+    tie_stream(ctx, "send_tensors: trace+result tie (checking transport)", gen_send, ctx.n(600, 4000), "sync_send")
+    tie_stream(ctx, "sync_states: trace+result tie (checking transport)", gen_states, ctx.n(600, 4000), "sync_states")
     witness_stream(ctx)
     from .. import gloo_runner
     gloo_runner.gloo_stream(ctx, [gen_send, gen_states], classify=None)
